@@ -170,7 +170,7 @@ func c04Gen(tier string, rng *rand.Rand, emit func(interface{})) {
 		emit(c04Case{Op: 3, X1: f(1, 2), Mu0: 0, Alt: alt})
 	}
 	// ---- two-sample tests ----
-	for it := 0; it < 260*mul; it++ {
+	for it := 0; it < 600*mul; it++ {
 		op := it % 2
 		off, spread := c04Scale(rng)
 		kind := rng.Intn(3) / 2
@@ -206,7 +206,7 @@ func c04Gen(tier string, rng *rand.Rand, emit func(interface{})) {
 		emit(c04Case{Op: op, X1: toF64s(x1), X2: toF64s(x2), Alt: it/2%3 - 1})
 	}
 	// ---- paired ----
-	for it := 0; it < 130*mul; it++ {
+	for it := 0; it < 300*mul; it++ {
 		off, spread := c04Scale(rng)
 		kind := rng.Intn(3) / 2
 		n := c04Size(rng)
@@ -234,7 +234,7 @@ func c04Gen(tier string, rng *rand.Rand, emit func(interface{})) {
 		emit(c04Case{Op: 2, X1: toF64s(x1), X2: toF64s(x2), Mu0: F64(mu0), Alt: it/3%3 - 1})
 	}
 	// ---- one sample ----
-	for it := 0; it < 130*mul; it++ {
+	for it := 0; it < 300*mul; it++ {
 		off, spread := c04Scale(rng)
 		kind := rng.Intn(3) / 2
 		n := c04Size(rng)
@@ -256,7 +256,7 @@ func c04Gen(tier string, rng *rand.Rand, emit func(interface{})) {
 		emit(c04Case{Op: 4, X1: f(3, 3, 3), C: F64(c)})
 		emit(c04Case{Op: 4, X1: f(1, 2), C: F64(c)})
 	}
-	for it := 0; it < 200*mul; it++ {
+	for it := 0; it < 400*mul; it++ {
 		off, spread := c04Scale(rng)
 		kind := rng.Intn(3) / 2
 		n := c04Size(rng)
